@@ -24,6 +24,12 @@ import (
 //   ; u <peer>                                                         UnregisterPeer
 //   ; h                                                                hold: block every SendChunk
 //   ; f                                                                flush: release them
+//   ; z <peer> <n> (<peer> <sid> <start> <stop> <maxNum> <maxSize> <maxChunks>)*n
+//        race of the reader's two input channels: the reader is blocked inside the ForEachItem
+//        callback of a blocker request (peer 999999); n requests (each followed by a sentinel),
+//        UnregisterPeer(peer) and a last sentinel are submitted; the hooks confirm that both
+//        channels hold them; the reader is released and select chooses.  Which entries were
+//        taken before the unregistration is read off the log by the driver.
 //
 // Determinism without sleeping:
 //   - serial numbers: every NotifyRequestReceived call gets the next serial (0 = the sentinel
@@ -102,6 +108,9 @@ type c17World struct {
 	allowed  int // ticket let through by flush (-1: none)
 	passed   int // SendChunk calls completed
 	items    []c17Item
+	blockFE  bool
+	entered  chan struct{}
+	release  chan struct{}
 	s        *basestreamseeder.BaseSeeder
 	limit    int64
 }
@@ -207,7 +216,8 @@ func c17Run(input []string) []string {
 	threads := int(atoi(header[0]))
 	limit := int64(atoi(header[1]))
 	nitems := int(atoi(header[5]))
-	w := &c17World{incs: map[int][]c17Resp{}, limit: limit, waiters: map[int]bool{}, allowed: -1}
+	w := &c17World{incs: map[int][]c17Resp{}, limit: limit, waiters: map[int]bool{}, allowed: -1,
+		entered: make(chan struct{}, 1), release: make(chan struct{})}
 	w.cond = sync.NewCond(&w.mu)
 	for i := 0; i < nitems; i++ {
 		w.items = append(w.items, c17Item{atoi(header[6+3*i]), atoi(header[7+3*i]), int(atoi(header[8+3*i]))})
@@ -225,7 +235,7 @@ func c17Run(input []string) []string {
 				if !held {
 					held, n = true, 0
 				}
-			case "f":
+			case "f", "z":
 				held, n = false, 0
 			case "r":
 				if held {
@@ -249,7 +259,13 @@ func c17Run(input []string) []string {
 			onKey func(basestream.Locator) bool, onAppended func(basestream.Payload) bool) basestream.Payload {
 			w.mu.Lock()
 			tag := w.tagTable[int(rType)]
+			block := w.blockFE
+			w.blockFE = false
 			w.mu.Unlock()
+			if block { // the reader stops here, inside the callback, until the race is set up
+				w.entered <- struct{}{}
+				<-w.release
+			}
 			p := &c17Payload{mem: 1, tag: tag}
 			for _, it := range w.items {
 				if it.key < uint64(start.(c17Loc)) {
@@ -375,6 +391,37 @@ func c17Run(input []string) []string {
 				flush()
 			}
 			_ = w.s.UnregisterPeer(op[1])
+			c17Spin("unregister", func() bool { return w.s.VerifPendingUnregisters() == 0 })
+		case "z":
+			flush()
+			n := int(atoi(op[2]))
+			w.mu.Lock()
+			w.blockFE = true
+			bs := w.serial
+			w.mu.Unlock()
+			w.submit("999999", uint32(bs), 0, 0, 1, 1, 1, true)
+			<-w.entered
+			for i := 0; i < n; i++ {
+				a := op[3+7*i:]
+				w.submit(a[0], uint32(atoi(a[1])), atoi(a[2]), atoi(a[3]), uint32(atoi(a[4])), atoi(a[5]), uint32(atoi(a[6])), false)
+				w.submit("0", 0, 1, 1, 1, 1, 0, true)
+				expectedPings++
+			}
+			_ = w.s.UnregisterPeer(op[1])
+			w.submit("0", 0, 1, 1, 1, 1, 0, true)
+			expectedPings++
+			inflight := 0
+			for i := 0; i < n; i++ { // requests refused with ErrTooManyChunks never enter the channel
+				if uint32(atoi(op[3+7*i+6])) <= uint32(atoi(header[4])) {
+					inflight++
+				}
+			}
+			if w.s.VerifPendingRequests() != inflight+n+1 || w.s.VerifPendingUnregisters() != 1 {
+				panic("race not set up")
+			}
+			vu.Stat("race_both_channels_in_flight")
+			w.release <- struct{}{}
+			quiesce()
 			c17Spin("unregister", func() bool { return w.s.VerifPendingUnregisters() == 0 })
 		case "h":
 			w.mu.Lock()
@@ -509,6 +556,28 @@ func c17GenOne(r *rand.Rand, emit func(...string)) {
 			if held {
 				heldReqs++
 			}
+		case x < 80 && r.Intn(3) == 0:
+			// race: requests of the unregistering peer (and others) against its unregistration
+			pu := 1 + r.Intn(npeers)
+			n := r.Intn(4)
+			in = append(in, ";", "z", strconv.Itoa(pu), strconv.Itoa(n))
+			for j := 0; j < n; j++ {
+				peer := pu
+				if r.Intn(3) == 0 {
+					peer = 1 + r.Intn(npeers)
+				}
+				sid := 1 + r.Intn(nsids)
+				k := fmt.Sprintf("%d:%d", peer, sid)
+				ss, ok := known[k]
+				if !ok {
+					ss.start = uint64(r.Intn(int(maxKey) + 2))
+					ss.stop = ss.start + uint64(r.Intn(int(maxKey)+4))
+					known[k] = ss
+				}
+				in = append(in, strconv.Itoa(peer), strconv.Itoa(sid), strconv.FormatUint(ss.start, 10),
+					strconv.FormatUint(ss.stop, 10), strconv.Itoa(1+r.Intn(4)), strconv.Itoa(1+r.Intn(8)), strconv.Itoa(r.Intn(cfgChunks+1)))
+			}
+			held = false
 		case x < 86:
 			in = append(in, ";", "u", strconv.Itoa(1+r.Intn(npeers)))
 		case x < 94:
